@@ -142,8 +142,22 @@ package cl
 //@   ensures exit-stops: exit_stops(result) && no_exit_before($n - 1)
 //@   loop rangeindex: invariant trace: $n == rangeindex + 1 && slots_in_order(s) && (forall k :: (0 <= k && k < $n) ==> !truthy($eres[k])) && ($n >= 1 ==> result == $eres[$n - 1])
 
+// let binds in parallel: every init form is evaluated in the outer scope s
+// (never in the scope being built), once, as element 1 of its binding.
+//@ func cl.processBinding
+//@   property C01 C07
+//@   option trace
+//@   ensures outer-scope: forall k :: (old($n) <= k && k < $n) ==> ($escope[k] == s && $eidx[k] == 1 && $eslot[k] == 0 - 1)
+//@   ensures no-exit-out: $exit == old($exit)
+//@   ensures held: $held == old($held) && $last == old($last)
+//@   loop rangeindex: invariant outer: old($n) <= $n && (forall k :: (old($n) <= k && k < $n) ==> ($escope[k] == s && $eidx[k] == 1 && $eslot[k] == 0 - 1)) && $held == old($held) && $last == old($last)
+
 //@ func cl.(*Let).Call
 //@   property C01 C07
+//@   option eval-once
 //@   option forward-exits
-//@   ensures body-order: forall k :: (0 <= k && k < $n && $eslot[k] >= 0) ==> ($eslot[k] >= 1 && $escope[k] != s)
+//@   ensures body-scope: forall k :: (0 <= k && k < $n && $eslot[k] >= 0) ==> ($eslot[k] >= 1 && $escope[k] != s)
+//@   ensures init-scope: forall k :: (0 <= k && k < $n && $eslot[k] < 0) ==> $escope[k] == s
+//@   ensures all-body: (!$exit && len(args) > 1) ==> ($last == len(args) - 1 && result == $eres[$n - 1])
 //@   ensures exit-stops: exit_stops(result)
+//@   loop i<len(args): invariant trace: (forall k :: (0 <= k && k < $n && $eslot[k] >= 0) ==> ($eslot[k] >= 1 && $escope[k] != s)) && (forall k :: (0 <= k && k < $n && $eslot[k] < 0) ==> $escope[k] == s) && (i > 1 ==> $last == i - 1) && (i == 1 ==> $last == 0 - 1) && (i > 1 ==> ($n >= 1 && result == $eres[$n - 1]))
